@@ -118,5 +118,15 @@ Definition table_ident_ok (t : string) : bool :=
 
 Definition sql_ok (q : sql_fact) : bool := str_in (q_verb q) sql_verbs && table_ident_ok (q_table q).
 
+(* wrappers: every method of utils.ReadTracer / utils.WriteTracer must hand its call on to the method of the same name
+   of the wrapped object with its own parameters in the same order *)
+Record tracer_fact := mkTracerFact {
+  tf_recv : string;       (* ReadTracer / WriteTracer *)
+  tf_method : string;
+  tf_callee : string;     (* method called on the wrapped object in the return statement ("?" = no such statement) *)
+  tf_args_same : bool     (* the arguments are exactly the parameters, in order *)
+}.
+Definition tracer_ok (f : tracer_fact) : bool := String.eqb (tf_method f) (tf_callee f) && tf_args_same f.
+
 Definition find_stmt (op : string) (idx : nat) (tbl : list stmt_fact) : option stmt_fact :=
   find (fun f => String.eqb (sf_op f) op && Nat.eqb (sf_idx f) idx) tbl.
